@@ -33,7 +33,7 @@ import (
 
 func cases(tier string) int {
 	if tier == "thorough" {
-		return 40000
+		return 200000
 	}
 	return 2400
 }
